@@ -216,7 +216,10 @@ PROPS = {
                  "that instance's options and registrations (exact type + tag takes precedence, unregistered named types fall back to their "
                  "kind), and round-trips; after a further instance registers different codecs every existing instance still produces the same "
                  "bytes; the package-level Marshal/Unmarshal/CodecForType agree with a fresh default-configured instance and with the plain "
-                 "kind-based encoding. Values with multi-entry maps are skipped (byte-exact oracle). Non-trivial = >=2 instances whose expected "
+                 "kind-based encoding. Values with multi-entry maps are skipped (byte-exact oracle). Sub-checks with hand-computed bytes: a codec "
+                 "registered under (RefNode, \"ref\") for a recursive struct's own tagged self-reference, whatever type the instance meets first; "
+                 "codecs registered through the package-level RegisterCodec / RegisterCodecWithTag (types used by this sub-check only) are used "
+                 "by the package-level functions and by no instance created before or after. Non-trivial = >=2 instances whose expected "
                  "encodings differ; distinct by case hash."),
         "jobs": [{"run": "^TestC17", "shards": 32, "quick_shards": 4, "timeout_quick": 600, "timeout_thorough": 3000}],
     },
